@@ -69,6 +69,10 @@ def shards(tier, seed):
         out.append({'kind': 'large', 'nsamp': nsamp})
     if tier == 'thorough':
         out.append({'kind': 'huge'})  # > 2^24 voxels and > 65535 samples in one voxel
+    # an atom vibrating through a cell face and landing exactly on it, volume taken in displacement mode
+    for name, M in [('cubic-4', np.eye(3) * 4.0), ('tric-4-5-6', geom.from_parameters(4, 5, 6, 70, 80, 100))]:
+        for axis in range(3):
+            out.append({'kind': 'faceosc', 'cell': name, 'M': M.tolist(), 'axis': axis, 'L': 4 if tier == 'quick' else 5})
     hi = 2048 if tier == 'thorough' else 1024
     for lo in range(1, hi + 1, 128):
         out.append({'kind': 'roundtrip', 'lo': lo, 'hi': min(lo + 127, hi)})
@@ -233,6 +237,25 @@ def run_shard(shard) -> Result:
             for kind, detail in viols:
                 res.violation(kind, {'coords': coords.tolist(), 'M': M.tolist(), 'res': r}, detail)
         res.sample({'cell': shard['cell'], 'resolution': r, 'probed_axis_values_example': coords[:2, :, 2].tolist()})
+        return res
+    if shard['kind'] == 'faceosc':
+        M, axis = np.array(shard['M']), shard['axis']
+        others = [a for a in range(3) if a != axis]
+        for seq in itertools.product([0.0, 0.99, 0.01, 0.98, 0.5], repeat=shard['L']):
+            coords = np.zeros((shard['L'], 2, 3))
+            coords[:, 0, axis] = seq
+            coords[:, 0, others[0]] = 0.3
+            coords[:, 0, others[1]] = 0.6
+            coords[:, 1, :] = np.array(seq)[:, None]  # second atom: the same history on all three axes
+            viols, key, sharp, tie = eval_volume(coords, M, 0.5)
+            res.evals += sharp + tie
+            res.stats['samples_sharp'] += sharp
+            res.stats['samples_tie_zone'] += tie
+            res.stats['face_oscillation_histories'] += 1
+            res.outcome(hash(key))
+            for kind, detail in viols:
+                res.violation(kind, {'coords': coords.tolist(), 'M': M.tolist(), 'res': 0.5}, detail)
+        res.sample({'face_oscillation_cell': shard['cell'], 'axis': axis, 'values': [0.0, 0.99, 0.01, 0.98, 0.5]})
         return res
     if shard['kind'] == 'grid3d':
         combos = [((1.0, 1.3, 2.2), 0.5), ((1.0, 1.0, 1.0), 0.3), ((2.2, 1.0, 1.3), 0.4), ((1.3, 2.2, 1.0), 0.33), ((2.0, 1.0, 3.0), 0.7), ((1.0, 2.0, 1.5), 0.5)]
